@@ -59,6 +59,11 @@ man = {
         "path": "lean/LdarModel/Model/Sim.lean, lean/LdarModel/Props/Sim.lean, harness/props/sim.py (run: ./check SIM [--tier thorough])",
         "serves_properties": ["C01", "C02", "C03", "C04", "C05", "C06", "C07", "C08", "C10", "C11"],
         "kind_free_text": "integrated executable Lean model of the whole day loop (composition of the component models) validated column by column against whole real runs with all random draws recorded; composition theorems lift the component theorems (C02/C03/C04 life-cycle, C11 ledger, C10 cost identity, C08 budget, C05 zero coverage, C06/C07 schedule) to the integrated model; an engine-level extra, not one of the 19 claimed checks",
+    }, {
+        "name": "py2lean-layer3",
+        "path": "harness/extract/py2lean.py + emission_src.py, crew_src.py, planner_src.py, followup_src.py -> lean/LdarModel/Generated/*Src.lean; lean/LdarModel/Props/EmissionTie.lean, EmissionOnSource.lean, CrewTie.lean, PlannerTie.lean, FollowUpTie.lean; harness/props/_tie.py",
+        "serves_properties": ["C01", "C02", "C03", "C04", "C06", "C07", "C08", "C09", "C10", "C11"],
+        "kind_free_text": "translator from a subset of Python methods to pure Lean functions, run against /repo's current source on every check run; tie theorems prove that each translated method (emission life-cycle methods of the four emission classes, Method.survey_site, the planners' queue_site_for_survey / add_to_surveys_done, SiteLevelMethod.update_mobile) is the corresponding function of the hand-written model for all inputs, that iterating the translated emission methods is the model's run, and restate C02/C03/C04 on the translated code; a method outside the subset is a note (tie = correspondence only), a tie theorem that no longer compiles is a broken obligation",
     }],
     "checks": checks,
     "notes": "fix: commits in /repo and recorded findings are listed in known_findings.json; DESIGN.md section 6.",
